@@ -265,9 +265,13 @@ End(c) ==
    connection notices anything in either case. *)
 HostileClosing == {"type0", "type15", "oversize", "len5", "strlen", "garbage",
                    "empty-connect", "empty-connack", "empty-publish", "empty-puback", "empty-subscribe", "empty-suback",
-                   "empty-unsubscribe", "empty-unsuback", "empty-pubrel", "short-connect"}
+                   "empty-unsubscribe", "empty-unsuback", "empty-pubrel", "short-connect",
+                   "sub-deep-drop", "sub-plus-deep-drop"}      \* (a held subscription with very many levels when the socket closes)
 HostileSurviving == {"sub-last-huge", "sub-last-max", "history-last-huge", "keygen-illtyped", "presence-illtyped",
-                     "link-longname", "pub-ttl-huge", "pub-window-extreme", "api-unknown", "ping-flood", "pub-many-options"}
+                     "link-longname", "pub-ttl-huge", "pub-window-extreme", "api-unknown", "ping-flood", "pub-many-options",
+                     \* well-formed requests with extreme depth / counts / lengths, each undone by the requester itself
+                     \* (subscribe + unsubscribe, watch + unwatch): nothing remains, nobody else notices
+                     "sub-deep", "sub-plus-deep", "sub-mixed-deep", "sub-many-topics", "sub-long-level", "pub-deep", "presence-plus-deep"}
 Hostile(c, cls, closed) ==
     /\ conn[c] = "open"
     /\ IF cls \in HostileClosing \/ closed
